@@ -363,7 +363,7 @@ func checkShapes(r *Run, shapes []Shape, o eqOpts, maxPaths int, assumptions ...
 }
 
 func CheckC02(r *Run) int {
-	ngen := 30
+	ngen := 150
 	if r.Tier != "quick" {
 		ngen = 5000
 	}
@@ -377,6 +377,9 @@ func CheckC03(r *Run) int {
 	if deep {
 		shapes = append(shapes, generatedShapes("slices", r.Seed+3, 4000, true, true)...)
 		bounds = "bounds: symbolic indices assumed in 0..40, symbolic strings of 6 bytes, substring bounds 0..6; plus 4000 generated programs with []int variables, growth and len"
+	} else {
+		shapes = append(shapes, generatedShapes("slices", r.Seed+3, 100, true, true)...)
+		bounds += "; plus 100 generated programs with []int variables, growth and len"
 	}
 	return checkShapes(r, shapes, eqOpts{Target: "bash", CheckHazards: true}, 20000, bounds+"; excluded: out-of-range reads, negative indices, copy into a longer destination")
 }
@@ -388,6 +391,9 @@ func CheckC04(r *Run) int {
 		// generated programs whose functions print and write globals: any change of evaluation order or count is observable
 		shapes = append(shapes, generatedShapes("effects", r.Seed+5, 4000, true, false)...)
 		note += "; thorough: plus 4000 generated programs whose functions have effects (output, global updates)"
+	} else {
+		shapes = append(shapes, generatedShapes("effects", r.Seed+5, 100, true, false)...)
+		note += "; quick: plus 100 such generated programs"
 	}
 	return checkShapes(r, shapes, eqOpts{Target: "bash", CheckHazards: true}, 3000, note)
 }
